@@ -517,14 +517,19 @@ Loop:
 			return ovsdb.OperationResult{}
 		}
 
-		if timeout != nil {
-			// TODO(trozet): this really shouldn't just break and loop on a time interval
-			// Really this client handler should pause, wait for another handler to update the DB
-			// and then try again. However the server is single threaded for now and not capable of
-			// doing something like that.
-			if time.Since(start) > time.Duration(*timeout)*time.Millisecond {
-				break Loop
-			}
+		if timeout == nil {
+			// Without a timeout the operation waits until another transaction
+			// changes the database. Transactions are serialized, so none can
+			// run while this one waits: the wait would never end and no other
+			// request would ever be served. Report the time out instead.
+			break Loop
+		}
+		// TODO(trozet): this really shouldn't just break and loop on a time interval
+		// Really this client handler should pause, wait for another handler to update the DB
+		// and then try again. However the server is single threaded for now and not capable of
+		// doing something like that.
+		if time.Since(start) > time.Duration(*timeout)*time.Millisecond {
+			break Loop
 		}
 		time.Sleep(200 * time.Millisecond)
 	}
